@@ -12,7 +12,7 @@ a<k> abrupt close · X server close · i<k>:<letters> hostile frames given as it
 t incomplete) · r<k>:<hex>[:<inhex>=<outhex|E>,..] hostile bytes (zlib results of the compressed frames supplied).
 
 Output: one segment per token joined by " ; ":
-  <obs>|L<0/1> A<0/1> c<n> f<n> p<n> q<n> fd<n> ch<n>|<k>:<E|->:<inst|->:<conn hooks>:<disc hooks> ...
+  <obs>|L<0/1> A<0/1> c<n> f<n> p<n> q<n> fd<n> ch<n> n<frames>|<k>:<E|->:<inst|->:<conn hooks>:<disc hooks> ...
 obs: - ok refused pong ref resolved keyerr eof timeout · `skip` for a token outside the alphabet in that state ·
 `hang` for a pool close that does not return · NOT-MODELLED for bytes whose classification needs `Env.raises`.
 -/
@@ -116,7 +116,7 @@ def showSt (s : St) : String :=
   "L" ++ b01 s.listening ++ " A" ++ b01 s.acceptAlive ++ " c" ++ toString (s.ids.filter (fun k => (s.cli k).tracked)).length ++
     " f" ++ toString (s.ids.filter (fun k => (s.cli k).inFd)).length ++
     " p" ++ toString (s.ids.filter (fun k => (s.cli k).polled)).length ++ " q" ++ toString s.queue.length ++
-    " fd" ++ toString fds ++ " ch" ++ toString ch ++ "|" ++
+    " fd" ++ toString fds ++ " ch" ++ toString ch ++ " n" ++ toString s.frames ++ "|" ++
     " ".intercalate ((s.ids.filter (fun k => (s.cli k).phase != .absent)).map (showCli s))
 
 /-- debugging aid: phases -/
